@@ -80,6 +80,7 @@ func c07Phase(ctx *Ctx, r *rand.Rand, db *database.Database, dbName, phase strin
 	if N == 0 {
 		return
 	}
+	cdb := database.NewCachedDatabase(db)
 	words := vlib.DBWords(cmds)
 	if len(words) > 3000 {
 		words = words[:3000]
@@ -126,7 +127,14 @@ func c07Phase(ctx *Ctx, r *rand.Rand, db *database.Database, dbName, phase strin
 		ctx.R.Eval(1)
 		ctx.R.Guard("C07", "SearchUniversal", cs, func() {
 			refs, stable := vlib.StableRef(5, func() vlib.Ranked { return vlib.Canon(cmds, db.SearchUniversal(q, o)) })
-			onRes := db.SearchUniversal(q, oOn)
+			var onRes []database.SearchResult
+			if qi%3 == 1 { // through one caching wrapper: the fuzzy-off request first, then the fuzzy-on request
+				cdb.SearchWithOptionsAndCache(q, o)
+				onRes = cdb.SearchWithOptionsAndCache(q, oOn)
+				ctx.R.Path("on-answer-through-cache-after-off-request", 1)
+			} else {
+				onRes = db.SearchUniversal(q, oOn)
+			}
 			on := vlib.Canon(cmds, onRes)
 			if len(refs[0]) > 0 {
 				// (i) an answer that exists is not changed by typo tolerance
